@@ -84,7 +84,7 @@ func (d DynLinearQuantizer) CreateInstruction(name string) (Opcode, error) {
 		}
 	}
 
-	return LinearQuantizer{lqName: name, s: s, t: t, opType: opType, max: max, pipeline: new(uint8)}, nil
+	return LinearQuantizer{lqName: name, s: s, t: t, opType: opType, max: max}, nil
 
 }
 
